@@ -14,6 +14,10 @@ from . import c02
 
 def run(ctx):
     rm = REModel(ctx.repo)
+    # the FailedPause stashed for the plan and a status failure pending in self._exception are both handed over, one per iteration (seed C10-c)
+    from . import c12
+
+    q.relabelled(ctx, "C12.D2", "C10.D1", c12.d2_poll_every_iteration, rm)
     repo = rm.repo
     run_f = rm.run
     ctx.explanation = (
